@@ -19,7 +19,10 @@ def main():
     b = oracle.Builder(d, t)
     names = sys.argv[1:] or apisurface.names()
     groups = [[n] for n in names] + ([names] if len(names) > 1 else [])
-    jobs = [(g, io, tc) for g in groups for io in (True, False) for tc in P.all_toolchains()]
+    # all six configurations at -O0, and the two C++14 ones again at -O2 (libm versus constant
+    # folding: a fragment must not print a libm result that is not correctly rounded at full precision)
+    tcs = list(P.all_toolchains()) + [("g++", "c++14", "-O2"), ("clang++", "c++17", "-O2")]
+    jobs = [(g, io, tc) for g in groups for io in (True, False) for tc in tcs]
 
     def run(j):
         g, io, tc = j
@@ -41,8 +44,8 @@ def main():
             bad += 1
             print("PROBLEM %-24s io=%s" % (label, io))
             for tc, r in rs:
-                print("    %s/%s: %s" % (tc[0], tc[1], "ok" if r["ok"] else r["diag"][:300].replace("\n", " | ")))
-    print("%d fragment groups x {io,noio} x 6 toolchains checked, %d problems" % (len(groups), bad))
+                print("    %s: %s" % ("/".join(tc), "ok" if r["ok"] else r["diag"][:300].replace("\n", " | ")))
+    print("%d fragment groups x {io,noio} x 8 configurations checked, %d problems" % (len(groups), bad))
     return 1 if bad else 0
 
 
